@@ -28,6 +28,8 @@
 (***************************************************************************)
 EXTENDS HypIso
 
+CONSTANT Thin      \* TRUE: the second letter of a word is restricted to the atoms that move the basepoint (fewer frames)
+
 Col(M, j) == [i \in 1..Len(M) |-> M[i][j]]
 NNorm(v) == 0 - MNorm(v)
 
@@ -71,6 +73,7 @@ TAtoms == ExactAtoms \cup UndetAtoms           \* AtomVal([k |-> "origin_to", x]
 TInit == Init
 TLeft(a) ==
   /\ len < MaxLen /\ a \in TAtoms
+  /\ Thin => (len = 0 \/ a.k \in {"origin_to", "lox"})
   /\ g' = Mul(AtomVal(a), g) /\ len' = len + 1 /\ UNCHANGED kind
   /\ last' = [a |-> "left", atom |-> a]
 TNext == \E a \in TAtoms : TLeft(a)
@@ -93,6 +96,10 @@ Parallel(u, v) == \A i, j \in 1..Len(u) : u[i] * v[j] = u[j] * v[i]
 \* component of q tangent to the hyperboloid at p, times <p,p> < 0 negated (a positive factor)
 TowardsDir(p, q) == VAdd(VScale(NNorm(p), q), VScale(MDot(p, q), p))
 
+PrimPos(v) == LET q == VGcd(v) IN [i \in 1..Len(v) |-> v[i] \div q]        \* positive multiples only: keeps the direction
+
+\* TLC integers are 32-bit: every product below is guarded by bounds on its factors (frames of short words pass all
+\* guards, longer words pass fewer); the emitted values themselves involve no large products
 AlongLaws ==
   Bound(1500) =>
   \A i \in 1..Len(Taus) :
@@ -101,16 +108,16 @@ AlongLaws ==
         q == Prim(raw)
         p == BaseOf(g)
         w == TowardsDir(p, q)
-    IN /\ MNorm(raw) = 0 - (t[2] * t[2] - t[1] * t[1]) * D * D           \* an interior point
+    IN /\ VSmall(raw, 10000) => MNorm(raw) = 0 - (t[2] * t[2] - t[1] * t[1]) * D * D         \* an interior point
        /\ q[1] > 0
        \* cosh^2 d(p, q) = 1 / (1 - tanh^2 t) : the point is at distance |t|
-       /\ (VSmall(p, 1000) /\ VSmall(q, 1000) /\ Abs(MDot(p, q)) <= 4000 /\ NNorm(q) <= 4000 /\ NNorm(p) <= 4000)
+       /\ (VSmall(p, 1000) /\ VSmall(q, 1000) /\ Abs(MDot(p, q)) <= 3000 /\ NNorm(q) <= 3000 /\ NNorm(p) <= 3000)
             => MDot(p, q) * MDot(p, q) * (t[2] * t[2] - t[1] * t[1]) = t[2] * t[2] * NNorm(p) * NNorm(q)
        \* on the geodesic spanned by the tangent vector, on the side of sgn t
        /\ \A k \in 3..Dim : MDot(q, Col(g[1], k)) = 0
        /\ Sgn(MDot(q, V1)) = Sgn(t[1])
        \* the unit tangent at p towards q is sgn(t) v
-       /\ (VSmall(p, 1000) /\ VSmall(q, 1000) /\ VSmall(w, 40000)) => (Parallel(w, V1) /\ Sgn(Dot(w, V1)) = Sgn(t[1]))
+       /\ (VSmall(p, 200) /\ VSmall(q, 500) /\ VSmall(w, 40000)) => (Parallel(w, V1) /\ Sgn(Dot(w, V1)) = Sgn(t[1]))
 
 \* scale of a primitive point along: sqrt(-<q,q>) = W(t) d / gcd(raw)
 SOf(a, t) == (W(t) * a[2]) \div VGcd(AlongRaw(a, t))
@@ -118,7 +125,7 @@ SOf(a, t) == (W(t) * a[2]) \div VGcd(AlongRaw(a, t))
 CosineLaw(t1, t2, c) == R(t1[2] * t2[2] * c[2] - t1[1] * t2[1] * c[1], W(t1) * W(t2) * c[2])
 
 TurnLaws ==
-  Bound(1500) =>
+  Bound(600) =>
   \A i \in 1..Len(Turns) :
     LET r == Turns[i]
         h == Mul(g, r)
@@ -144,7 +151,7 @@ Transport ==
         T == IsoTo(g, h)
     IN (\A j \in 1..Dim : VSmall(T[1][j], 10000)) =>
          /\ Act(T, BaseOf(g)) = BaseOf(h)
-         /\ VScale(h[2], MatVec(T[1], V1)) = VScale(T[2] * D, DirOf(h))
+         /\ PrimPos(MatVec(T[1], V1)) = PrimPos(DirOf(h))
          /\ MatMul(Transpose(T[1]), MatMul(J, T[1])) = MatScale(T[2] * T[2], J)
 
 SecondsValid ==
@@ -156,10 +163,14 @@ SecondsValid ==
 (***************************************************************************)
 (* Observations handed to the harness                                      *)
 (***************************************************************************)
+\* conformance domain: basepoints with cosh d(o, p) <= CoshBound (floating-point isometries of far points are
+\* ill-conditioned: the relative error of an inverse grows like cosh^2)
+CoshBound == 200
+InDomain == P1[1] <= CoshBound * D
 TanOf(a) == [p |-> BaseOf(a), ph |-> BaseRaw(a), v |-> DirOf(a), d |-> a[2]]
 
 Obs ==
-  [len |-> len, g |-> g, tv |-> TanOf(g),
+  [len |-> len, g |-> g, tv |-> TanOf(g), guards |-> [along |-> Bound(1500), turns |-> Bound(600), indomain |-> InDomain],
    along |-> [i \in 1..Len(Taus) |-> [t |-> Taus[i], q |-> PointAlong(g, Taus[i])]],
    turns |-> [i \in 1..Len(Turns) |->
                 LET h == Mul(g, Turns[i]) IN
